@@ -206,3 +206,18 @@ Qed.
 
 Print Assumptions C15_failed_write_isolation.
 Print Assumptions C15_failing_write_model_is_interpretation.
+
+(* ================= phase 5: isolation over ALL histories with failed writes =================
+   In every state reached by any history of successful and failing writes (C14_refinement_failing_medium): the
+   header runs named by the FILE never overlap; every chunk whose last write succeeded reads back through the
+   same object AND after a reopen (also when an earlier write of it failed). *)
+From GoMC Require Proofs.C14_dirty.
+Theorem C15_isolation_failing_history : forall s m D T, C14_dirty.Rd s m D T ->
+  (forall i j k, i < 1024 -> j < 1024 -> i <> j -> hdr (img s) i <> 0 -> hdr (img s) j <> 0 ->
+     run_of (hdr (img s) i) k -> run_of (hdr (img s) j) k -> False) /\
+  (forall x z, x < 32 -> z < 32 -> D (idx x z) = false -> read_sector s x z = spec_read m (idx x z)) /\
+  (exists sl, load (img s) = LOk sl /\ img sl = img s /\
+     forall x z, x < 32 -> z < 32 -> D (idx x z) = false -> read_sector sl x z = spec_read m (idx x z)).
+Proof. exact C14_dirty.Rd_gives. Qed.
+
+Print Assumptions C15_isolation_failing_history.
